@@ -2713,6 +2713,7 @@ func scalarizeStructLocals(p *Prog, pk *packages.Package, baseline map[string]bo
 			}
 			// candidate variables: locals of an unknown named struct type of this package
 			cands := map[*types.Var]*types.Named{}
+			viaPtr := map[*types.Var]bool{}
 			var order []*types.Var
 			ast.Inspect(fd.Body, func(n ast.Node) bool {
 				id, isId := n.(*ast.Ident)
@@ -2723,7 +2724,12 @@ func scalarizeStructLocals(p *Prog, pk *packages.Package, baseline map[string]bo
 				if !isV || v.IsField() {
 					return true
 				}
-				named, isN := v.Type().(*types.Named)
+				vt := v.Type()
+				if ptr, isP := vt.(*types.Pointer); isP {
+					vt = ptr.Elem() // `x := &T{...}` used only through its fields: the same, the literal is behind a pointer
+					viaPtr[v] = true
+				}
+				named, isN := vt.(*types.Named)
 				if !isN || named.Obj().Pkg() != pk.Types || named.TypeArgs().Len() > 0 || knownStruct(named.Obj().Name()) {
 					return true
 				}
@@ -2763,6 +2769,20 @@ func scalarizeStructLocals(p *Prog, pk *packages.Package, baseline map[string]bo
 					continue
 				}
 				name := v.Name()
+				ptrVar := viaPtr[v]
+				// the literal behind an assigned value: T{...}, or &T{...} for a pointer variable
+				litOf := func(e ast.Expr) *ast.CompositeLit {
+					e = ast.Unparen(e)
+					if ptrVar {
+						u, isU := e.(*ast.UnaryExpr)
+						if !isU || u.Op != token.AND {
+							return nil
+						}
+						e = ast.Unparen(u.X)
+					}
+					lit, _ := e.(*ast.CompositeLit)
+					return lit
+				}
 				litVals := func(lit *ast.CompositeLit) ([]string, bool) {
 					if !types.Identical(info.TypeOf(lit), named) {
 						return nil, false
@@ -2856,7 +2876,12 @@ func scalarizeStructLocals(p *Prog, pk *packages.Package, baseline map[string]bo
 								for i := range names {
 									sb.WriteString("var " + names[i] + " " + fieldTypes[i] + "\n")
 								}
-							} else if lit, isLit := ast.Unparen(vs.Values[0]).(*ast.CompositeLit); isLit && len(vs.Values) == 1 && !mentions(lit) {
+							} else if lit := func() *ast.CompositeLit {
+								if len(vs.Values) == 1 {
+									return litOf(vs.Values[0])
+								}
+								return nil
+							}(); lit != nil && !mentions(lit) {
 								vals, okV := litVals(lit)
 								if !okV {
 									okUses = false
@@ -2880,8 +2905,8 @@ func scalarizeStructLocals(p *Prog, pk *packages.Package, baseline map[string]bo
 							if !isId || (info.Defs[id] != types.Object(v) && info.Uses[id] != types.Object(v)) {
 								continue
 							}
-							lit, isLit := ast.Unparen(t.Rhs[0]).(*ast.CompositeLit)
-							if !isLit || mentions(lit) {
+							lit := litOf(t.Rhs[0])
+							if lit == nil || mentions(lit) {
 								okUses = false
 								continue
 							}
